@@ -448,6 +448,9 @@ def run(ctx):
     rule_name_rule(ctx)
     rule_no_dev_open(ctx)
     rule_reader_base(ctx)
+    # module names are stored with the shared string helper (same rule instance as C16/string)
+    from rules import c16
+    c16.rule_string(ctx, R="C08/name-string")
     # a module whose build id cannot be read is dropped from the list: the scan over PT_NOTE segments must not give up early
     from rules import c14
     c14.rule_scan_all_notes(ctx, R="C08/scan-all-notes")
